@@ -1,1 +1,4 @@
 //! Hooks of group 'proto' for the /verif machinery.
+
+/// Token type returned by `scim_sync_generate_token` / OAuth2 flows (the harness does not link compact_jwt itself).
+pub use compact_jwt::JwsCompact;
